@@ -167,6 +167,83 @@ def solve_fallback(ctx, fn="partial", kind="general", ref="NI", zero_at=0):
                   ctx.all([ctx.eq(r[i, j], 0.0, atol=0.0) for i in range(size) for j in range(cols)]))
 
 
+# ----------------------------------------------------------------------------------------------------------------------
+# two thermodynamics objects built from one Database object (ordered precipitate -> DIS_<matrix> phase)
+
+class _Phase:
+    def __init__(self, name, hints):
+        self.name = name; self.model_hints = dict(hints); self.constituents = [["AL", "CR", "NI"], ["VA"]]; self.sublattices = [1.0, 1.0]
+
+
+class _Params(list):
+    """pycalphad Database._parameters (a tinydb table): only insert() is used"""
+
+    def insert(self, doc):
+        self.append(dict(doc))
+        return len(self)
+
+
+class _Database:
+    """stand-in for pycalphad.Database: phases dict, _parameters table, search(query) with the real tinydb query"""
+
+    def __init__(self):
+        self.phases = {}
+        self._parameters = _Params()
+
+    def search(self, query):
+        return [p for p in self._parameters if query(p)]
+
+
+def shared_database(ctx, nG=2, nMQ=2, objects=2, other=True):
+    """GeneralThermodynamics._forceDisorder for `objects` thermodynamics objects built one after the other from the SAME
+    database object: afterwards the disordered copy DIS_<matrix> holds every parameter of the matrix phase exactly once
+    per parameter type (same count, same sum of the -- symbolic -- parameter values), i.e. the second object sees the
+    same free-energy and mobility description as the first"""
+    from kawin.thermo.Thermodynamics import GeneralThermodynamics
+    db = _Database()
+    mat, prec = "FCC_A1", "FCC_L12"
+    hints = {"ordered_phase": prec, "disordered_phase": mat}
+    db.phases[mat] = _Phase(mat, hints); db.phases[prec] = _Phase(prec, hints)
+    types = [("G", nG), ("MQ", nMQ)]
+    k = 0
+    for t, cnt in types:
+        for i in range(cnt):
+            db._parameters.insert({"phase_name": mat, "parameter_type": t, "parameter_order": i, "constituent_array": (("AL", "NI"), ("VA",)),
+                                   "diffusing_species": "NI" if t == "MQ" else None, "parameter": ctx.real("p_%s%d" % (t, i), (0.5, 2.0))})
+            k += 1
+    if other:
+        db._parameters.insert({"phase_name": prec, "parameter_type": "G", "parameter_order": 0, "constituent_array": (("AL",), ("NI",)),
+                               "diffusing_species": None, "parameter": ctx.real("p_prec", (0.5, 2.0))})
+    parent0 = [dict(p) for p in db._parameters]
+
+    def summary(phase):
+        out = {}
+        for t, _ in types:
+            ps = [p for p in db._parameters if p["phase_name"] == phase and p["parameter_type"] == t]
+            out[t] = (len(ps), sum((p["parameter"] for p in ps), 0.0 * parent0[0]["parameter"]))
+        return out
+    want = summary(mat)
+    for o in range(objects):
+        th = object.__new__(GeneralThermodynamics)
+        th.db = db
+        th.phases = [mat, prec]
+        th._forceDisorder(th.phases[0])
+        tag = "object %d: " % (o + 1) if o < objects - 1 else "last object: "
+        dis = "DIS_" + mat
+        ctx.prove(tag + "matrix phase of the object is the disordered copy", th.phases[0] == dis and dis in db.phases and db.phases[dis].name == dis)
+        ctx.prove(tag + "disordered copy carries no order/disorder hints, the matrix phase keeps its own",
+                  "ordered_phase" not in db.phases[dis].model_hints and "disordered_phase" not in db.phases[dis].model_hints
+                  and db.phases[mat].model_hints == hints and db.phases[mat].name == mat)
+        got = summary(dis)
+        for t, _ in types:
+            ctx.observe("%ssum_%s" % (tag, t), got[t][1])
+            ctx.prove(tag + "disordered copy holds each %s parameter of the matrix phase exactly once (count)" % t, got[t][0] == want[t][0])
+            ctx.prove(tag + "disordered copy holds each %s parameter of the matrix phase exactly once (sum of values)" % t, ctx.eq(got[t][1], want[t][1]))
+        now = summary(mat)
+        ctx.prove(tag + "parameters of the matrix phase itself untouched",
+                  all(now[t][0] == want[t][0] for t, _ in types) and [p for p in db._parameters if p["phase_name"] in (mat, prec)] == parent0)
+
+
 def _solve_hook(a):
     from vk import core, symnp
     return _exact_inverse(a, False)
@@ -179,6 +256,12 @@ EXTRA = [
             bounds={"components": "2-4", "reference position": "first / middle / last"},
             params={"quick": [{"els": ["AL", "CR", "NI"], "ref": r} for r in ("AL", "CR", "NI")] + [{"els": ["AL", "NI"], "ref": "NI", "dof": 2}, {"els": ["AL", "CR", "FE", "NI"], "ref": "FE", "dof": 4}],
                     "thorough": [{"els": ["AL", "CR", "FE", "NI"], "ref": r, "dof": 5, "ncons": 2} for r in ("AL", "CR", "FE", "NI")]}),
+    Harness("C10.shared_database", shared_database, functions=[__import__("kawin.thermo.Thermodynamics", fromlist=["x"]).GeneralThermodynamics._forceDisorder],
+            assumptions=["parameter values are arbitrary positive reals (positive only so that a doubled sum differs from the single one)"],
+            stubs=["pycalphad Database: phases dict (name, model_hints), _parameters table with insert(), search(query) evaluating the real tinydb query on the entries"],
+            bounds={"parameters per type": "nG, nMQ", "objects sharing the database": "objects"},
+            params={"quick": [{"nG": 2, "nMQ": 2, "objects": 1}, {"nG": 2, "nMQ": 2, "objects": 2}, {"nG": 1, "nMQ": 3, "objects": 3, "other": False}],
+                    "thorough": [{"nG": g, "nMQ": q, "objects": o} for g in (1, 3) for q in (1, 3) for o in (1, 2, 3)]}),
     Harness("C10.solve_fallback", solve_fallback, functions=[FEH.partialddx, FEH.totalddx], opts={"inv_hook": _solve_hook},
             assumptions=["exact arithmetic: np.linalg.inv raises LinAlgError exactly for singular matrices; conditioning / rcond effects of "
                          "floating-point solves are NOT covered",
